@@ -65,11 +65,19 @@ ASSUMPTIONS = ["the application does not write to a channel after calling loseCo
                "only after' (loseConnection: 'note the request'), so a channel that has sent everything and never sends the CLOSE its application asked for fails",
                "hooks are called synchronously and may call any channel method (stopWriting's hint 'can be ignored': writing from it is legal); the tree as found "
                "violated the statement for three such call-backs from stopWriting() (FINDINGS 3-5), repaired in /repo 220f069, 1d9adb0, b23aa03",
-               "the transport below delivers whole messages reliably and in order per direction",
+               "the application writes to a channel only once it is open (from channelOpen() on): before the OPEN_CONFIRMATION a channel has neither a peer window nor a "
+               "maximum packet (both 0, outside 'from 1 byte up'); the tree does not support it on either side (write() raises ValueError from range(0, 0, 0) after "
+               "setting buf, the accepting side raises KeyError in sendData, writeExtended() buffers and ssh_CHANNEL_OPEN_CONFIRMATION does not flush) and its own "
+               "channels (forwarding.py clientBuf) buffer by themselves until channelOpen()",
+               "startWriting()/stopWriting() may call back but do not raise: an exception from a hook inside addWindowBytes escapes SSHService.packetReceived and "
+               "SSHTransportBase.dataReceived (no handler on that path), so the reactor drops the connection and no later message exists to judge",
+               "the transport below delivers whole messages reliably and in order per direction, through a queue: sendPacket() neither raises nor delivers anything back "
+               "into the sender before it returns (SSHTransportBase over TCP cannot; write() charges the window only after its send loop, so a WINDOW_ADJUST "
+               "handed in from inside sendPacket by a synchronous link would be replayed against an uncharged window)",
                "normal data and each extended data type are separate streams: order is required within a stream, not between streams"]
 LEVEL_NOTE = ("seeded search over operation/delivery interleavings, not enumeration; windows and packet limits from {1,2,3,4,5,8,16,64} x {1,2,3,4,7,16,64}. "
-              "3% of runs admit a 1-byte window and 4% allow loseConnection() with two buffered extended-data entries: the only families that reach the two "
-              "defects listed in FINDINGS; all other runs avoid those preconditions so the remaining clauses are checked on full-length runs. "
+              "20% of runs admit a 1-byte window and 30% allow loseConnection() with two buffered extended-data entries: the only families that reach the first two "
+              "defects listed in FINDINGS (both REPAIRED in /repo: 4407136, 11d5935); the other runs keep those preconditions out. "
               "Three sub-families of the stopWriting() hook (each ~13% of runs: hang up while buffered data is being replayed, write data of the OTHER kind "
               "than the write that stalled, write while buffered data is being replayed) are the only ones that reached FINDINGS 3-5 (repaired in /repo: 220f069, "
               "1d9adb0, b23aa03); they are ordinary families now, and violations after such a hook action carry an `after-stopWriting-...` witness of their own.")
@@ -470,9 +478,9 @@ def run(sim):
     w = World(sim)
     nchan = sim.draw_choice([1, 2, 3], "nchan")
     ext_types = sim.draw_choice([[1], [1, 2], [1, 2, 3], [1, 2]], "ext_types")
-    # Two families exist only to keep finding the two defects this check found on the unchanged tree
-    # (see FINDINGS below); all other runs avoid their preconditions so that every other clause is
-    # exercised on full-length runs whether or not those defects are listed/fixed.
+    # Two families carry the preconditions of the first two defects this check found on the tree as first examined
+    # (see FINDINGS below; both REPAIRED in /repo: 4407136, 11d5935); they are let into 20% / 30% of the runs,
+    # the other runs keep those preconditions out.
     tiny_window = sim.draw_bool(0.2, "allow_window_1")
     hunt_close_ext = sim.draw_bool(0.3, "hunt_close_between_ext_entries")
     windows = WINDOWS if tiny_window else WINDOWS[:-1]
@@ -588,11 +596,11 @@ def run(sim):
     sim.nontrivial = bool(w.flags["buffered"] and w.flags["flushed_on_adjust"])
 
 
-# Defects this check found on the unchanged tree (twisted 24.7.0.post0).  Each has its own stable signature; the
+# Defects this check found on the tree as first examined (twisted 24.7.0.post0).  Each has its own stable signature; the
 # witness_tape values are replay tapes for one version of run() (any change to the order of draws invalidates them: the tapes of
 # the first two entries predate the hook families; those of entries 3-5 are for THIS version).  All five are repaired in /repo
-# (entry 1: 4407136, entry 2: 'fix: SSH connection replenishes a one-byte channel window', entries 3-5: 220f069, 1d9adb0, b23aa03),
-# so none of the tapes violates any more.  The two families `hunt_close_ext` (4% of runs) and `allow_window_1` (3%) are the only
+# (entry 1: 4407136, entry 2: 11d5935 'fix: SSH connection replenishes a one-byte channel window', entries 3-5: 220f069, 1d9adb0, b23aa03),
+# so none of the tapes violates any more.  The two families `hunt_close_ext` (30% of runs) and `allow_window_1` (20%) are the only
 # ones that can reach the first two, the three `hook_*` sub-families of the stopWriting() hook the only ones that reach entries 3-5.
 FINDINGS = [
     {"signature": "C36:close-before-flush:unsent=ext,in=WINDOW_ADJUST",
@@ -656,5 +664,5 @@ MUTANTS = [
     "(close-never-sent:requested-from=app / startWriting / stopWriting)",
     "the three repairs of FINDINGS 3-5 reverted one at a time (/repo 220f069, 1d9adb0, b23aa03) -> each caught under its own tagged signature "
     "(close-never-sent:after-stopWriting-lose-in-replay,...; exceeds-window:after-stopWriting-write-other-kind,...; stream-order:after-stopWriting-write-in-replay,ext)",
-    "candidate FIXES applied together (addWindowBytes replays extBuf with closing suspended then calls loseConnection(); replenish test `< max(localWindowSize // 2, 1)`) -> check passes, 16000 runs, exit 0",
+    "the repairs of FINDINGS 1-2 (now in /repo 4407136, 11d5935) applied together (addWindowBytes replays extBuf with closing suspended then calls loseConnection(); replenish test `< max(localWindowSize // 2, 1)`) -> check passes, 16000 runs, exit 0",
 ]
